@@ -374,6 +374,51 @@ def run_special(res):
                 kind = "nested-class" if "Canvas" in ref else ("alias" if "Alias" in ref else "top-level-class")
                 res.violation(f"C11/special/qualified-reference/{kind}/{fn_name}/{'raises:' + o.excname if not o.ok else 'differs'}",
                               f"{fn_name} via the qualified string {ref!r} from another module -> {short(o.val if o.ok else o.exc, 100)}", {"kind": "special", "desc": "qualified string references"})
+    # a string reference issued through a helper of ANOTHER module, naming objects the issuing module binds but does not define:
+    # a plain generic alias (dict[str, UID] reports no module of its own) and a NewType imported under another name
+    cold.clear_all()
+    prelude.mkmod("tlg_c11_defs", "import typing\nUserId = typing.NewType('UserId', int)\n")
+    prelude.mkmod("tlg_c11_loader", "import typelib\ndef load(ref, payload):\n    return _load(ref, payload)\ndef _load(ref, payload):\n    return typelib.unmarshal(ref, payload)\n"
+                                    "def dump(ref, value):\n    return typelib.marshal(value, t=ref)\ndef build(ref):\n    return typelib.codec(ref)\n")
+    user = prelude.mkmod("tlg_c11_user", "import typing\nimport tlg_c11_loader as loader\nfrom tlg_c11_defs import UserId as UID\nScores = dict[str, UID]\nMaybeScores = typing.Optional[Scores]\n"
+                                         "def load(ref, payload):\n    return loader.load(ref, payload)\ndef dump(ref, value):\n    return loader.dump(ref, value)\n"
+                                         "def roundtrip(ref, value):\n    c = loader.build(ref)\n    return c.decode(c.encode(value))\n").__dict__
+    for label, fn, want in (
+        ("load('Scores')", lambda: user["load"]("Scores", {"a": "1", "b": 2.0}), {"a": 1, "b": 2}),
+        ("load('MaybeScores')", lambda: user["load"]("MaybeScores", {"a": "1"}), {"a": 1}),
+        ("load('UID')", lambda: user["load"]("UID", "7"), 7),
+        ("dump('Scores')", lambda: user["dump"]("Scores", {"a": 1}), {"a": 1}),
+        ("codec('Scores')", lambda: user["roundtrip"]("Scores", {"a": 1}), {"a": 1}),
+    ):
+        cold.clear_all()
+        o = call(fn)
+        res.evals += 1
+        res.outcomes.add(h64("special", "via-helper", label, "ok" if o.ok else o.excname))
+        if not (o.ok and same(o.val, want)):
+            res.violation(f"C11/special/reference-via-helper-module/{label.split('(')[0]}/{'raises:' + o.excname if not o.ok else 'differs'}",
+                          f"{label} issued by a module that binds the name (to a plain alias / an import under another name) through a helper of another module -> {short(o.val if o.ok else o.exc, 100)}; expected {want!r}",
+                          {"kind": "special", "desc": "string reference through a helper module"})
+    # Final[T] on a field of a PLAIN annotated class that also has a class-level default: the field is a field, both directions
+    cold.clear_all()
+    fm = prelude.mkmod("tlg_c11_finalplain", "import typing, decimal\nclass W:\n    a: typing.Final[decimal.Decimal] = decimal.Decimal(0)\n    b: str = 'x'\n    def __init__(self, a=decimal.Decimal(0), b='x'):\n        self.a, self.b = a, b\n"
+                                             "class P:\n    a: decimal.Decimal = decimal.Decimal(0)\n    b: str = 'x'\n    def __init__(self, a=decimal.Decimal(0), b='x'):\n        self.a, self.b = a, b\n").__dict__
+    import decimal
+
+    for fn_name in ("marshal", "encode"):
+        ow = call(getattr(typelib, fn_name), fm["W"](decimal.Decimal("1.5"), "y"), t=fm["W"])
+        op = call(getattr(typelib, fn_name), fm["P"](decimal.Decimal("1.5"), "y"), t=fm["P"])
+        res.evals += 2
+        res.outcomes.add(h64("special", "final-plain", fn_name, "ok" if ow.ok else ow.excname))
+        if ow.ok != op.ok or (ow.ok and not same(ow.val, op.val)):
+            res.violation(f"C11/special/final-field-of-plain-class-with-default/{fn_name}/{'wrapped-raises:' + str(ow.excname) if not ow.ok else 'differs'}",
+                          f"{fn_name}(W(Decimal('1.5'), 'y')) with `a: Final[Decimal] = Decimal(0)` -> {short(ow.val if ow.ok else ow.exc, 100)}; twin with `a: Decimal = Decimal(0)` -> {short(op.val if op.ok else op.exc, 100)}",
+                          {"kind": "special", "desc": "Final on a plain-class field with a class-level default"})
+    ow = call(typelib.unmarshal, fm["W"], {"a": "1.5", "b": "y"})
+    op = call(typelib.unmarshal, fm["P"], {"a": "1.5", "b": "y"})
+    res.evals += 2
+    if ow.ok != op.ok or (ow.ok and not same((ow.val.a, ow.val.b), (op.val.a, op.val.b))):
+        res.violation(f"C11/special/final-field-of-plain-class-with-default/unmarshal/{'wrapped-raises:' + str(ow.excname) if not ow.ok else 'differs'}",
+                      f"unmarshal(W, ...) -> {short(vars(ow.val) if ow.ok else ow.exc, 100)}; twin -> {short(vars(op.val) if op.ok else op.exc, 100)}", {"kind": "special", "desc": "Final on a plain-class field with a class-level default"})
     res.samples.append({"special": "TwoPaths (NewType and Final[NewType]), AliasTwice, bare name from two modules, qualified references (top-level / nested / alias)"})
 
 
